@@ -46,4 +46,40 @@ PROPS = {
         ],
         "assumptions": ["ids are numbered in creation order, so parents_older holds and fuel = |store|+1 suffices (C04_fuel)"],
     },
+    "C03": {
+        "propfile": "PropC03.v",
+        "n": {"quick": 300, "thorough": 6000},
+        "corr": "rsl.(Reference|Annotation|Propagation)Entry.Commit / CommitWithoutNumber vs run_ops",
+        "rule": "sequences of 1-15 recording operations through the real pkg/rsl API on an in-memory Storer: reference entries over 5 refs "
+                "(3 in refs/gittuf/, i.e. what policy staging/apply and attestation commits record), annotations with 1-3 targets "
+                "(valid entries, unknown ids, ...), propagation entries; one third start with a legacy unnumbered prefix that "
+                "transitions to numbering. After every operation an independent walker (raw commits, not pkg/rsl) exports tip and "
+                "graph. distinct = distinct Coq case terms; non-trivial = >=3 ops and (legacy prefix or a refused op or >=6 ops)",
+        "theorems": ["C03_step", "C03_sequences", "C03_log_ok"],
+        "trusted": [
+            "the in-memory gitstore.Storer of the harness and its independent graph reader",
+            "policy staging/apply and attestation commits are represented by the reference entries they record (their own "
+            "ref handling is C12/C16); SkipAllInvalidReferenceEntriesForRef is not modelled yet",
+        ],
+        "assumptions": ["single writer, no storage faults (C17, C16 cover those)"],
+    },
+    "C17": {
+        "propfile": "PropC17.v",
+        "n": {"quick": 400, "thorough": 40000},
+        "corr": "concurrent rsl recording operations under a scheduling Storer wrapper vs exec (LogOps.v)",
+        "rule": "2 writers: ALL interleavings of their semantic storage steps (numbering read, Commit's tip read, object creation, "
+                "compare-and-set; 35-70 per scenario) for several scenarios (quick 3, thorough 12); 3 writers: all 34650 interleavings "
+                "of one scenario in the thorough tier; then random interleavings of 2-3 writers. Writers are goroutines running the real "
+                "pkg/rsl code against one in-memory Storer, serialised by a scheduler at those yield points. Scenarios vary start "
+                "state (empty, numbered, legacy unnumbered) and operation mix (reference, annotation, propagation, unnumbered). "
+                "non-trivial = >=2 writers of which >=1 succeeded",
+        "theorems": ["C17_chain_safe", "C17_start_states", "C17_numbering_refuted"],
+        "trusted": [
+            "the scheduling wrapper: yield points are the numbering read of the log tip and the three sub-steps of Commit as "
+            "implemented by the harness's in-memory Storer (read, create, compare-and-set) - the same structure as "
+            "gitinterface.Repository.Commit, which itself is NOT exercised under interleaving by this check (partial)",
+            "real-process randomness, file-system atomicity of git update-ref: outside the model",
+        ],
+        "assumptions": ["annotation targets are entries that exist before the writers start"],
+    },
 }
